@@ -5,7 +5,7 @@ use std::{
     collections::{BTreeMap, HashSet},
     hash::{Hash, Hasher},
     panic::{AssertUnwindSafe, catch_unwind},
-    path::{Path, PathBuf},
+    path::PathBuf,
     sync::{
         Arc, Mutex,
         atomic::{AtomicBool, AtomicU64, Ordering},
